@@ -712,6 +712,7 @@ func (e *Engine) wellFormedValueIf(g *Term, t types.Type, v *Term, bound *Term) 
 		ax(Ge(SliceLen(v), IntT(0)))
 		ax(Ge(SliceOff(v), IntT(0)))
 		ax(Le(SliceLen(v), SliceCap(v)))
+		ax(Implies(Eq(LocObj(SliceBase(v)), IntT(0)), Eq(SliceCap(v), IntT(0)))) // a nil slice is empty
 	case IntS:
 		if _, isMap := t.Underlying().(*types.Map); isMap {
 			ax(Lt(v, bound))
@@ -1016,7 +1017,7 @@ func (e *Engine) execInstr(fr *Frame, ins ssa.Instruction, st *State, pc *Term) 
 		}
 		mt := in.X.Type().Underlying().(*types.Map)
 		has, val, _ := e.mapComps(mt)
-		h := Select(Select(e.comp(rd, has), x), k)
+		h := And(Neq(x, IntT(0)), Select(Select(e.comp(rd, has), x), k)) // a nil map has no entries
 		raw := Select(Select(e.comp(rd, val), x), k)
 		e.noteLoadedMapVal(rd, mt, raw)
 		v := Ite(h, raw, e.tr.zero(mt.Elem()))
@@ -1149,7 +1150,7 @@ func (e *Engine) mapNext(fr *Frame, in *ssa.Next, st *State, pc *Term) {
 	has, val, _ := e.mapComps(mt)
 	ok := Fresh("next.ok", BoolS)
 	k := Fresh("next.k", e.tr.sortOf(mt.Key()))
-	e.assume(pc, Implies(ok, Select(Select(e.comp(st, has), m), k)))
+	e.assume(pc, Implies(ok, And(Neq(m, IntT(0)), Select(Select(e.comp(st, has), m), k))))
 	raw := Select(Select(e.comp(st, val), m), k)
 	e.noteLoadedMapVal(st, mt, raw)
 	st.vals[in] = Tuple(ok, k, raw)
@@ -1606,6 +1607,25 @@ func (e *Engine) isUnder(addr, loc *Term) *Term {
 func (e *Engine) addObl(fr *Frame, kind, label string, props []string, pc, goal *Term, pos string) {
 	if e.quiet > 0 || (fr != nil && fr.clause) {
 		return
+	}
+	// a conjunction is split into one obligation per conjunct (sharper
+	// reports, smaller queries)
+	if goal.Op == "and" && len(goal.Args) <= 24 && (kind == "ensures" || kind == "inv-init" || kind == "inv-step" || kind == "requires") {
+		for i, g := range goal.Args {
+			e.addObl(fr, kind, fmt.Sprintf("%s.%d", label, i+1), props, pc, g, pos)
+		}
+		return
+	}
+	// implies(c, a && b) likewise
+	if goal.Op == "or" && len(goal.Args) == 2 && (kind == "ensures" || kind == "inv-init" || kind == "inv-step") {
+		for k := 0; k < 2; k++ {
+			if goal.Args[k].Op == "and" && len(goal.Args[k].Args) <= 24 {
+				for i, g := range goal.Args[k].Args {
+					e.addObl(fr, kind, fmt.Sprintf("%s.%d", label, i+1), props, pc, Or(goal.Args[1-k], g), pos)
+				}
+				return
+			}
+		}
 	}
 	ctx := ""
 	if fr != nil {
